@@ -103,6 +103,15 @@ def check(run, project):
     from ..report import RuleView
     from . import c05
     c05.check(RuleView(run, "E3", "S6"), project)
+    # ... and there is such an end: when the input ends after a complete message the stream walker has already announced the
+    # next message's root; without the pump's silent return at that point every stream would end in a depleted error
+    from .. import pump as _pump
+    F_ = _pump.analyse(project)
+    silent = [n for n, st in F_.returns if st[1] and st[2] == "EVENT" and (n.ast.value is None or norm(n.ast.value) == "None")]
+    run.ob("S6", bool(silent), "a stream that ends after a complete message ends silently",
+           "the pump has no return at the root event of the next message when the input is exhausted: every command/response "
+           "stream ends with InputStreamBytesDepletedError (and an extra root event) instead of ending with its last message",
+           module=F_.roles.mod, node=F_.roles.pump, func=F_.roles.pump.name, construct="silent end of stream")
     run.floor("S4", 5)
 
 
